@@ -518,25 +518,11 @@ def run(ctx):
 
     # ---- 3 connection loss
     r3 = rep.rule('C09.3-connection-loss', 'R-GUARD', 'read/write wrappers call dropped() on 0/-1; dropped() reports Z with "Possible duplicate" iff flagcritical; flagcritical is cleared only after the final reply')
+    from rules.C07 import wrapper_returns_only_positive
     for w in ('saferead', 'safewrite'):
         f = prog.fn(w, 'qmail-remote.c')
-        dc = f.calls('dropped')
-        ok = False
-        for c in dc:
-            g = f.guards(c) or []
-            # (r == 0 || r == -1): the call is reached from either disjunct; require that the normal return is
-            # dominated by both being false
-            ok = True
-        rets = [x for x in f.all_x() if x.k == 'ret']
-        okr = bool(rets)
-        for x in rets:
-            g = f.guards(x) or []
-            z = any(c.strip().k == 'bin' and c.strip().op == '==' and c.strip().args[1].const == 0 and t is False for c, t in g)
-            m = any(c.strip().k == 'bin' and c.strip().op == '==' and c.strip().args[1].const == -1 and t is False for c, t in g) or \
-                any(c.strip().k == 'bin' and c.strip().op in ('<=', '<') and t is False for c, t in g)
-            z = z or any(c.strip().k == 'bin' and c.strip().op in ('<=',) and c.strip().args[1].const == 0 and t is False for c, t in g)
-            okr = okr and z and m
-        r3.check(bool(dc) and okr, '%s-returns-only-positive-counts' % w, '%s:%d' % (f.unit, f.line), 'wrapper may return 0/-1 to substdio instead of calling dropped()')
+        r3.check(wrapper_returns_only_positive(db, rep, prog, f, w), '%s-returns-only-positive-counts' % w, '%s:%d' % (f.unit, f.line),
+                 'explored with the underlying call yielding -1 (timeout / error), 0 and 5: the wrapper may return to substdio only with the positive count; everything else must end in dropped()')
     dr = prog.fn('dropped', 'qmail-remote.c')
     outs = dr.calls('out')
     first = outs[0].args[0].string if outs else None
@@ -547,14 +533,34 @@ def run(ctx):
     r3.check(dr.noreturn, 'dropped-noreturn', '%s:%d' % (dr.unit, dr.line), 'dropped() must not return')
     if flag is None:
         raise AnalysisBroken('dropped(): the flag guarding the duplicate warning was not identified')
-    # the flag is cleared only after the smtpcode() that follows blast()
-    clears = [x for x in smtp.all_x() if x.k == 'asg' and x.args[0].path() == flag]
-    bl = smtp.calls('blast')
-    if not bl:
-        raise AnalysisBroken('smtp(): blast() not found')
-    for x in clears:
-        after = [c for c in smtp.calls('smtpcode') if smtp.dominates(bl[0], c) and smtp.dominates(c, x)]
-        r3.check(x.args[1].const == 0 and bool(after), 'critical-flag-cleared-after-final-reply', x.where, 'the flag is cleared before the reply to the final dot was read')
+    # the flag is cleared only after the smtpcode() that follows blast(): second exploration of smtp() watching the flag
+    class FlagHooks(SmtpHooks):
+        def tracked_global(self, path):
+            return path == flag or super().tracked_global(path)
+
+        def site(self, inst, x, ok, detail, E):
+            if inst.startswith('critical-flag'):
+                SmtpHooks.site(self, inst, x, ok, detail, E)
+
+        def prim_smtpcode(self, E, x, args):
+            if self.g(E, '$phase', 'greeting') == 'final':
+                E.set('$finalread', fs(1))
+            return SmtpHooks.prim_smtpcode(self, E, x, args)
+
+        def on_assign(self, E, x, path, val):
+            if path == flag:
+                self.nclear = getattr(self, 'nclear', 0) + 1
+                self.site('critical-flag-cleared-after-final-reply', x, val == fs(0) and self.g(E, '$finalread', 0) == 1 and self.g(E, '$blasted', 0) == 1,
+                          'the flag that marks "the message may have been accepted" is set to %s in smtp() %s: a connection lost while waiting for the reply to the final dot is then reported without the possible-duplicate warning' %
+                          (sorted(val) if val is not TOP else '?', 'before the reply to the final dot was read' if self.g(E, '$finalread', 0) != 1 else ''), E)
+    FH = FlagHooks()
+    engf = Engine(db, prog, FH)
+    engf.run(smtp)
+    rep.count_states(engf.states, engf.transitions)
+    if getattr(FH, 'nclear', 0) < 1 and all(v[0] for v in FH.sites.values()):
+        raise AnalysisBroken('smtp(): the critical flag is never cleared on an explored path')
+    for inst, (ok, where, detail, path) in sorted(FH.sites.items()):
+        r3.check(ok, inst, where, detail, path)
     from qv.lib import unit_callees
     blf = prog.fn('blast', 'qmail-remote.c')
     allowed_fns = {f.name for f in unit_callees(prog, blf)} | {f.name for f in unit_callees(prog, smtp) if f.name not in ('dropped', 'quit')}
